@@ -20,3 +20,22 @@ def run(ctx):
     pscommon.absorb(ctx, summ, "vh replay-ps (MC_PSProg budget)", "PSMachine!Count / BudgetTransparent")
     pscommon.negative_control(ctx, vec, base)
     ctx.extra["budget_runs"] = summ["vectors"]
+    # (b) recursion and growth shapes against the real limits
+    cl = {"Tier": '"quick"', "StepBound": "9000", "MaxBudget": "1", "Family": '"limits"'}
+    summ2, _, _ = pscommon.run_mbt(ctx, "MC_PSProg", cl, "pslimits", base_heap="FreshHeap")
+    pscommon.absorb(ctx, summ2, "vh replay-ps (MC_PSProg limits)", "PSMachine!EnterProc/CallProc/Guarded, PSOps!NewContainer")
+    ctx.extra["limit_shapes"] = summ2["vectors"]
+    # (c) the %! start check
+    import os
+    d = ctx.specdir()
+    total = 0
+    for fam, inv in (("pairs", "EmitPair"), ("hist", "EmitHist")):
+        out = "psstart-%s.ndjson" % fam
+        cfg = ('CONSTANTS\n  Family = "%s"\n  MaxCalls = %d\n  OutFile = "%s"\nINIT Init\nNEXT Next\n'
+               'INVARIANT %s\nPROPERTY CheckOnce\nPROPERTY RejectIsInert\nCHECK_DEADLOCK FALSE\n'
+               % (fam, 3 if ctx.tier == "quick" else 4, out, inv))
+        ctx.tlc("PSStart", cfg, label="psstart-" + fam, workers=4)
+        s3 = ctx.vh_json("replay-start", os.path.join(d, out))
+        pscommon.absorb(ctx, s3, "vh replay-start (%s)" % fam, "PSStart!Call")
+        total += s3["vectors"]
+    ctx.extra["start_check_vectors"] = total
